@@ -220,7 +220,8 @@ where
                 }
             }
             chrom += 1;
-            seq.push(seqrec.seq().to_vec());
+            // Soft-masked (lower case) references are written out in upper case
+            seq.push(seqrec.seq().to_ascii_uppercase());
         }
         if split_kmer_pos.is_empty() {
             panic!("{filename} has no valid sequence");
